@@ -436,6 +436,38 @@ theorem ordered_all2 (P : SongIn → SeqData → Prop) (songs : List SongIn) (tr
   rw [hkeys]
   exact All2.flatMap _ _ _ (fun k _ => hvals k)
 
+/-- … and the group list with its song counts is the spec's -/
+theorem ordered_groups (P : SongIn → SeqData → Prop) (songs : List SongIn) (tr : List (Bytes × SeqData))
+    (h : All2 (fun s kv => kv.1 = groupOf s.group ∧ P s kv.2) songs tr) :
+    (tr.foldl (fun acc kv => insertKey kv.1 acc) []).map (fun k => (k, (valsOf tr k).length)) =
+      (groupKeys songs).map fun k => (k, (songs.filter fun s => groupOf s.group == k).length) := by
+  have hkeys : ∀ (acc : List Bytes), songs.foldl (fun acc s => insertKey (groupOf s.group) acc) acc =
+      tr.foldl (fun acc kv => insertKey kv.1 acc) acc := by
+    induction h with
+    | nil => intro acc; rfl
+    | cons hr _ ih => intro acc; simp only [List.foldl_cons, hr.1]; exact ih _
+  have hvals : ∀ k, (valsOf tr k).length = (songs.filter fun s => groupOf s.group == k).length := by
+    intro k
+    unfold valsOf
+    clear hkeys
+    induction h with
+    | nil => rfl
+    | @cons s kv ss kvs hr _ ih =>
+      simp only [List.filter_cons]
+      by_cases hk : groupOf s.group = k
+      · have h1 : (groupOf s.group == k) = true := by simpa using hk
+        have h2 : decide (kv.1 = k) = true := by rw [hr.1]; simpa using hk
+        simp only [h1, h2, if_true, List.map_cons, List.length_cons, ih]
+      · have h1 : (groupOf s.group == k) = false := by simpa using hk
+        have h2 : decide (kv.1 = k) = false := by rw [hr.1]; simpa using hk
+        simp only [h1, h2, Bool.false_eq_true, if_false]
+        exact ih
+  unfold groupKeys
+  rw [hkeys]
+  apply List.map_congr_left
+  intro k _
+  rw [hvals]
+
 /-! ### the per-song loop of the resolver -/
 
 theorem all2_of_map_eq {α β : Type} (f : α → Option β) (as : List α) (bs : List β) (h : as.map f = bs.map some) :
@@ -525,6 +557,78 @@ theorem songs_in_order (m bk : Nat) (hm : 0 < m) (hm24 : m < 16777216) (hb : bk 
   cases c with
   | data addr flag bytes => rfl
   | pcm addr hdr bytes => exact this
+
+theorem groupKey_ok (g : Bytes) : KeyOk (groupKey g) ∧ groupKey g ≠ [] := by
+  unfold groupKey
+  cases h : keyify g with
+  | nil =>
+    simp only [List.isEmpty_nil, if_true]
+    have e : keyify [66, 71, 77] = defaultGroup := by decide
+    exact ⟨by rw [← e]; exact keyify_ok _, by decide⟩
+  | cons c cs =>
+    simp only [List.isEmpty_cons, Bool.false_eq_true, if_false]
+    exact ⟨by rw [← h]; exact keyify_ok g, by simp⟩
+
+/-- the groups of the linker's map with their song counts are the spec's groups, every key is a non-empty valid symbol -/
+theorem seqBank_groups (m bk : Nat) (hm : 0 < m) (hb : bk < 1073741824) (hm2 : m < 1073741824)
+    (files : List (Bytes × Bytes)) (songs : List SongIn) (l : Linker)
+    (hparse : files.map (fun f => parseMds f.2) = songs.map some)
+    (hstart : ∀ s ∈ songs, ∀ sl ∈ s.slots, sl.start = 0)
+    (hrun : runOps (files.map fun f => Op.add f.1 f.2) (Linker.fresh m bk) = .ok l) :
+    l.seqBank.map (fun p => (p.1, p.2.length)) =
+      (groupKeys songs).map (fun k => (k, (songs.filter fun s => groupOf s.group == k).length)) ∧
+    (∀ p ∈ l.seqBank, KeyOk p.1 ∧ p.1 ≠ [] ∧ p.2 ≠ []) := by
+  have hfs := all2_of_map_eq (fun f : Bytes × Bytes => parseMds f.2) files songs hparse
+  have hD11 : ∀ f ∈ files, FileStart0 f.2 := by
+    intro f hf
+    obtain ⟨s, hs, hp⟩ := hfs.mem_left f hf
+    exact fileStart0_of_parse f.2 s hp (hstart s hs)
+  obtain ⟨tr, rs, inv, hnd, x, htr, hbank⟩ := runOps_trace files (Linker.fresh m bk) l []
+    (Wave.inv_new m bk hm hm2 hb) (by simp [Linker.fresh]) hD11 hrun
+  have hb0 := bank_fold tr [] [] (by simp [Sorted]) (by intro k _; simp [valsOf])
+  simp only [List.map_nil, List.nil_append] at hb0
+  have hsb : l.seqBank = (tr.foldl (fun acc kv => insertKey kv.1 acc) []).map (fun k => (k, valsOf tr k)) := by
+    rw [hbank]
+    have : (Linker.fresh m bk).seqBank = [] := rfl
+    rw [this, hb0.1]
+  have hpair : All2 (fun s kv => kv.1 = groupOf s.group ∧ True) songs tr := by
+    refine (hfs.join htr).imp ?_
+    intro s kv ⟨f, hf, hp, hname, rd, hrd, hkey, _⟩
+    obtain ⟨rd', r1, _, r3, _⟩ := readSong_of_parseMds f.2 s hp
+    rw [hrd] at r1
+    have e : rd = rd' := Option.some.inj r1
+    subst e
+    exact ⟨by rw [hkey, groupKey_eq, r3], trivial⟩
+  refine ⟨?_, ?_⟩
+  · rw [hsb, List.map_map, ← ordered_groups (fun _ _ => True) songs tr hpair]
+    rfl
+  · intro p hp
+    rw [hsb] at hp
+    obtain ⟨k, hk, rfl⟩ := List.mem_map.mp hp
+    simp only
+    -- every key of the map is the key of some inserted pair
+    have hmem : ∀ (tr : List (Bytes × SeqData)) (acc : List Bytes) (k : Bytes),
+        k ∈ tr.foldl (fun acc kv => insertKey kv.1 acc) acc → k ∈ acc ∨ ∃ kv ∈ tr, kv.1 = k := by
+      intro tr
+      induction tr with
+      | nil => intro acc k h; exact Or.inl h
+      | cons kv tr ih =>
+        intro acc k h
+        simp only [List.foldl_cons] at h
+        rcases ih _ k h with h1 | ⟨kv', h1, h2⟩
+        · rcases (mem_insertKey kv.1 k acc).mp h1 with e | e
+          · exact Or.inr ⟨kv, List.mem_cons_self .., e.symm⟩
+          · exact Or.inl e
+        · exact Or.inr ⟨kv', List.mem_cons_of_mem _ h1, h2⟩
+    rcases hmem tr [] k hk with h1 | ⟨kv, hkv, rfl⟩
+    · cases h1
+    · obtain ⟨f, _, _, rd, _, hkey, _⟩ := htr.mem_right kv hkv
+      refine ⟨by rw [hkey]; exact (groupKey_ok rd.group).1, by rw [hkey]; exact (groupKey_ok rd.group).2, ?_⟩
+      intro he
+      have hm : kv.2 ∈ valsOf tr kv.1 := by
+        unfold valsOf
+        exact List.mem_map_of_mem (List.mem_filter.mpr ⟨hkv, by simp⟩)
+      rw [he] at hm; cases hm
 
 theorem resolver_songs (m bk : Nat) (hm : 0 < m) (hm24 : m < 16777216) (hb : bk < 1073741824)
     (files : List (Bytes × Bytes)) (songs : List SongIn) (l : Linker) (bank : Bytes)
